@@ -318,6 +318,23 @@ def run_num(case):
         evals += 1
         if isinstance(have, str) or any(not gram.fclose(have[X], wantf.get(X, 0.0)) for X in NT):
             fails.append(_fail(f"float {name} == least solution", inp0, have, wantf))
+    # weights greater than one on recursion-free grammars (dyadic floats: exact arithmetic)
+    if n and no_recursion(rules, V):
+        BIGW = [3.0, 2.0, 1.5, 4.0, 0.75, 5.0]
+        bw = [BIGW[i % 6] for i in range(n)]
+        wantb2 = ref_totals([(w, h, b) for w, (h, b) in zip(bw, rules)], V, Float, tol=0, maxit=100)
+        for order in (None, list(range(n))[::-1]):
+            gb2 = gram.build(rules, Float, bw, V=V, order=order)
+            for name, f in (("agenda", gb2.agenda), ("naive_bottom_up", gb2.naive_bottom_up)):
+                have = _call(f)
+                evals += 1
+                if isinstance(have, str) or any(abs(have[X] - wantb2.get(X, 0.0)) > 1e-9 for X in NT):
+                    fails.append(_fail(f"float {name} == least solution (weights > 1)", dict(inp0, rule_order="reversed" if order else "natural"), have, wantb2))
+        el_want = ref_totals([(ExpRef(w, w * sum(1 for y in b if y in V)), h, b) for w, (h, b) in zip(bw, rules)], V, ExpRef, tol=0, maxit=100).get("S", ExpRef.zero).r
+        have = _call(lambda: gram.build(rules, Float, bw, V=V).expected_length)
+        evals += 1
+        if isinstance(have, str) or abs(have - el_want) > 1e-9 * max(1.0, abs(el_want)):
+            fails.append(_fail("expected_length == sum_x |x| w(x) (weights > 1)", inp0, have, el_want))
     # Log semiring with very small probabilities (log-weights around -20 .. -30)
     from genlm.grammar.semiring import Log
 
